@@ -151,16 +151,14 @@ func (s *State) appendElems(et types.Type, path []int, a, b Val, fits, nb, n str
 			j := fmt.Sprintf("j!%d", c.fresh)
 			c.fresh++
 			lo := app("+", a.Sl.Off, a.Sl.Len)
-			s.assume(fmt.Sprintf("(forall ((%s Int)) (! (=> (or (< %s %s) (>= %s (+ %s %s))) (= (select %s %s) (select %s %s))) :pattern ((select %s %s))))",
-				j, j, lo, j, lo, n, ip, j, oldA, j, ip, j))
-			s.assume(fmt.Sprintf("(forall ((%s Int)) (! (=> (and (<= 0 %s) (< %s %s)) (= (select %s (+ %s %s)) (select %s (+ %s %s)))) :pattern ((select %s (+ %s %s)))))",
-				j, j, j, n, ip, lo, j, srcB, b.Sl.Off, j, ip, lo, j))
+			// in place: cells outside [lo, lo+n) keep their value, cell k in that window holds b[k-lo]
+			s.assume(fmt.Sprintf("(forall ((%s Int)) (! (= (select %s %s) (ite (and (<= %s %s) (< %s (+ %s %s))) (select %s (+ %s (- %s %s))) (select %s %s))) :pattern ((select %s %s))))",
+				j, ip, j, lo, j, j, lo, n, srcB, b.Sl.Off, j, lo, oldA, j, ip, j))
 			inPlace = ip
 			fr := c.freshConst("apf", inner)
-			s.assume(fmt.Sprintf("(forall ((%s Int)) (! (=> (and (<= 0 %s) (< %s %s)) (= (select %s %s) (select %s (+ %s %s)))) :pattern ((select %s %s))))",
-				j, j, j, a.Sl.Len, fr, j, oldA, a.Sl.Off, j, fr, j))
-			s.assume(fmt.Sprintf("(forall ((%s Int)) (! (=> (and (<= 0 %s) (< %s %s)) (= (select %s (+ %s %s)) (select %s (+ %s %s)))) :pattern ((select %s (+ %s %s)))))",
-				j, j, j, n, fr, a.Sl.Len, j, srcB, b.Sl.Off, j, fr, a.Sl.Len, j))
+			// reallocated: cell k < len(a) holds a[k], cell len(a) <= k < len(a)+n holds b[k-len(a)]
+			s.assume(fmt.Sprintf("(forall ((%s Int)) (! (=> (and (<= 0 %s) (< %s (+ %s %s))) (= (select %s %s) (ite (< %s %s) (select %s (+ %s %s)) (select %s (+ %s (- %s %s)))))) :pattern ((select %s %s))))",
+				j, j, j, a.Sl.Len, n, fr, j, j, a.Sl.Len, oldA, a.Sl.Off, j, srcB, b.Sl.Off, j, a.Sl.Len, fr, j))
 			fresh = fr
 		}
 		s.heapSet(key, srt, ite(fits, sto(h, a.Sl.Base, inPlace), sto(h, nb, fresh)))
